@@ -50,7 +50,10 @@ def run_harness(binary, args, timeout=3600):
         elif cur is not None:
             cur.append(line)
     if stats is None:
-        raise C.BuildError('harness %s %s produced no report (exit %d): %s %s' % (binary, args, r.returncode, out[-1500:], r.stderr[-1500:]))
+        # the process died without a report (the crash handler normally prints one): still a finding, not a build problem
+        stats = {'executions': 1, 'distinct_traces': 0, 'violations': 1, 'deadlocks': 0, 'scenarios': 0, 'mode': 'crashed'}
+        violations = [['violation: the harness process died (exit %d) while running the library under test' % r.returncode,
+                       'scenario: ?', 'command: %s %s' % (binary, ' '.join(args)), 'output: ' + (out[-800:] + r.stderr[-800:]).replace('\n', ' | ')]]
     stats['wall_s'] = round(time.time() - t0, 2)
     return stats, samples, ['\n'.join(v) for v in violations]
 
